@@ -84,6 +84,12 @@ class OnDemandMedia(RequestHandlerBase):
         return flask.make_response((data, status, headers))
 
 
+class CorruptMediaError(Exception):
+    """
+    The stored media file can't be parsed
+    """
+
+
 class SegmentPosition(NamedTuple):
     mod_segment: int
     origin_time: int
@@ -111,7 +117,10 @@ class MediaRequestBase(RequestHandlerBase):
         if err is not None:
             return err
 
-        atom = self.load_fragment(media, 0, options)
+        try:
+            atom = self.load_fragment(media, 0, options)
+        except CorruptMediaError as err:
+            return flask.make_response(str(err), 404)
         if representation.encrypted:
             keys = models.Key.get_kids(representation.kids)
             drms = DrmContext(current_stream, keys, options)
@@ -177,9 +186,12 @@ class MediaRequestBase(RequestHandlerBase):
         assert isinstance(origin_time, int)
         assert mod_segment >= 0 and mod_segment <= representation.num_media_segments
 
-        atom = self.load_fragment(
-            media_file, mod_segment, options,
-            parse_samples=(adp_set.content_type == 'video' and options.videoCorruption))
+        try:
+            atom = self.load_fragment(
+                media_file, mod_segment, options,
+                parse_samples=(adp_set.content_type == 'video' and options.videoCorruption))
+        except CorruptMediaError as err:
+            return flask.make_response(str(err), 404)
 
         moof_modified: bool = False
         traf_modified: bool = False
@@ -310,14 +322,26 @@ class MediaRequestBase(RequestHandlerBase):
             mode='rw', lazy_load=True, bug_compatibility=options.bugCompatibility)
         if media.representation.encrypted:
             mp4_options.iv_size = media.representation.iv_size
-        with media.open_file(start=frag.pos, buffer_size=16384) as reader:
-            src = BufferedReader(
-                reader, offset=frag.pos, size=frag.size, buffersize=16384)
-            atom = mp4.Mp4Atom.load(src, options=mp4_options, use_wrapper=True)
-            if parse_samples:
-                atom.moof.traf.trun.parse_samples(
-                    src, media.representation.nalLengthFieldLength)
-
+        try:
+            with media.open_file(start=frag.pos, buffer_size=16384) as reader:
+                src = BufferedReader(
+                    reader, offset=frag.pos, size=frag.size, buffersize=16384)
+                atom = mp4.Mp4Atom.load(src, options=mp4_options, use_wrapper=True)
+                if parse_samples:
+                    atom.moof.traf.trun.parse_samples(
+                        src, media.representation.nalLengthFieldLength)
+            # check that the boxes that are always used can be parsed
+            if seg_index == 0:
+                atom.moov
+            else:
+                atom.moof.mfhd
+                atom.moof.traf.tfhd
+                atom.moof.traf.trun
+        except Exception as err:
+            logging.warning(
+                'Failed to parse segment %d of %s: %r', seg_index, media.name, err)
+            raise CorruptMediaError(
+                f'Failed to parse segment {seg_index} of {media.name}') from err
         return atom
 
     def update_traf_if_required(self, options: OptionsContainer, traf: mp4.BoxWithChildren) -> bool:
